@@ -23,6 +23,7 @@ import (
 	"io"
 	"sort"
 	"strings"
+	"time"
 
 	"seehuhn.de/go/pdf"
 	"seehuhn.de/go/pdf/verifharness/common"
@@ -1328,6 +1329,129 @@ func (rn *run) idOps() {
 	}
 }
 
+// placeholderOps: objects whose strings sit in a pdf.Placeholder (bare, inside arrays/dictionaries, as typed
+// wrappers which only RENDER as strings), set before or after the object is written, on seekable and non-seekable
+// output, at every version: the Writer may refuse, otherwise the object must read back as written.
+func (rn *run) placeholderOps() {
+	e := rn.e
+	kinds := []string{"string", "array-string", "array-textstring", "dict-date", "array-wrapper", "dict-nest"}
+	for _, v := range versions {
+		for _, seek := range []bool{true, false} {
+			for _, early := range []bool{true, false} {
+				for _, kind := range kinds {
+					if !e.Thorough && e.Rand.IntN(2) == 0 {
+						continue
+					}
+					info := map[string]any{"version": fmt.Sprint(v), "seekable": seek, "set_before_put": early, "value": kind}
+					m := marker(e, "ph")
+					date := pdf.Date(time.Date(1990+e.Rand.IntN(60), time.Month(1+e.Rand.IntN(12)), 1+e.Rand.IntN(28), e.Rand.IntN(24), e.Rand.IntN(60), e.Rand.IntN(60), 0, time.UTC))
+					value := func() pdf.Native {
+						switch kind {
+						case "array-string":
+							return pdf.Array{pdf.Integer(1), freshS(m)}
+						case "array-textstring":
+							return pdf.Array{pdf.TextString(string(m)), pdf.Integer(1)}
+						case "dict-date":
+							return pdf.Dict{"ModDate": date, "N": pdf.Integer(3)}
+						case "array-wrapper":
+							return pdf.Array{renderStr{m}}
+						case "dict-nest":
+							return pdf.Dict{"X": renderNest{m}}
+						}
+						return freshS(m)
+					}
+					want := render(pdf.Dict{"S": value(), "T": pdf.String("other")})
+					sb := &seekBuffer{}
+					var out io.Writer = sb
+					if !seek {
+						out = struct{ io.Writer }{sb}
+					}
+					w, err := pdf.NewWriter(out, v, &pdf.WriterOptions{UserPassword: "u", OwnerPassword: "o"})
+					if err != nil {
+						e.Fail("writer-refuses", err.Error(), info)
+						continue
+					}
+					pages := w.Alloc()
+					w.GetMeta().Catalog.Pages = pages
+					w.Put(pages, pdf.Dict{"Type": pdf.Name("Pages"), "Kids": pdf.Array{}, "Count": pdf.Integer(0)})
+					ph := pdf.NewPlaceholder(w, 200)
+					refused := false
+					if early {
+						refused = ph.Set(value()) != nil
+					}
+					ref := w.Alloc()
+					if !refused && w.Put(ref, pdf.Dict{"S": ph, "T": pdf.String("other")}) != nil {
+						refused = true
+					}
+					if !refused && !early {
+						refused = ph.Set(value()) != nil
+					}
+					if !refused && w.Close() != nil {
+						refused = true
+					}
+					key := fmt.Sprintf("placeholder|%v|%v|%v|%s", v, seek, early, kind)
+					if refused {
+						e.Count(true, key, "placeholder/refused")
+						continue
+					}
+					data := sb.data
+					for _, pw := range []string{"u", "o"} {
+						r, err := pdf.NewReader(bytes.NewReader(data), int64(len(data)), &pdf.ReaderOptions{Password: pw})
+						if err != nil {
+							e.Fail("placeholder-content", fmt.Sprintf("file with a placeholder-held string does not open: %v", err), info)
+							break
+						}
+						obj, err := r.Get(ref, true)
+						if err != nil {
+							e.Fail("placeholder-content", fmt.Sprintf("the object holding the placeholder cannot be read: %v", err), info)
+							break
+						}
+						if d, ok := obj.(pdf.Dict); ok {
+							if sref, isRef := d["S"].(pdf.Reference); isRef { // the placeholder became an indirect object
+								inner, _ := r.Get(sref, true)
+								d = pdf.Dict{"S": inner, "T": d["T"]}
+								obj = d
+							}
+						}
+						if got := render(obj); got != want {
+							e.Fail("placeholder-content", fmt.Sprintf("a string held by a placeholder does not read back: read %s, written %s", clipLong(got), clipLong(want)), info)
+							break
+						}
+					}
+					e.Count(true, key, "placeholder/readable")
+				}
+			}
+		}
+	}
+}
+
+// seekBuffer is an in-memory io.WriteSeeker
+type seekBuffer struct {
+	data []byte
+	pos  int
+}
+
+func (b *seekBuffer) Write(p []byte) (int, error) {
+	if need := b.pos + len(p); need > len(b.data) {
+		b.data = append(b.data, make([]byte, need-len(b.data))...)
+	}
+	copy(b.data[b.pos:], p)
+	b.pos += len(p)
+	return len(p), nil
+}
+
+func (b *seekBuffer) Seek(off int64, whence int) (int64, error) {
+	switch whence {
+	case io.SeekStart:
+		b.pos = int(off)
+	case io.SeekCurrent:
+		b.pos += int(off)
+	case io.SeekEnd:
+		b.pos = len(b.data) + int(off)
+	}
+	return int64(b.pos), nil
+}
+
 // ---- parseEncryptDict: the Writer's dictionary and damaged variants of it ----------------------------
 
 func nameTok(n pdf.Name) string {
@@ -1688,6 +1812,7 @@ func main() {
 	rn.primitives()
 	rn.perms()
 	rn.idOps()
+	rn.placeholderOps()
 
 	perm := 0
 	nextPerm := func() pdf.Perm { perm = (perm + 37) % 128; return pdf.Perm(perm) }
